@@ -58,12 +58,15 @@ def EW_OPS(C, R):
         ('m++.object', '{ auto m = A; m++; stm(o+%d, m); }', lambda A, B, s, k: A[k] + one(A[k])),
         ('m--.result', '{ auto m = A; auto r = m--; stm(o+%d, r); }', lambda A, B, s, k: A[k]),
         ('m--.object', '{ auto m = A; m--; stm(o+%d, m); }', lambda A, B, s, k: A[k] - one(A[k])),
+        ('m+=self', '{ auto m = A; m += m; stm(o+%d, m); }', lambda A, B, s, k: A[k] + A[k]),
+        ('m-=self', '{ auto m = A; auto const& r = m; m -= r; stm(o+%d, m); }', lambda A, B, s, k: A[k] - A[k]),
         ('m=m', '{ glm::mat<%d,%d,T,QQ> m(T(7)); m = A; stm(o+%%d, m); }' % (C, R), lambda A, B, s, k: A[k]),
     ]
     if sq:
         ops += [('s+m', 'stm(o+%d, s + A);', lambda A, B, s, k: s + A[k]),
                 ('s-m', 'stm(o+%d, s - A);', lambda A, B, s, k: s - A[k]),
-                ('m*=m', '{ auto m = A; m *= B; stm(o+%d, m); }', lambda A, B, s, k: flat(mmul(unflat(A, C, R), unflat(B, C, R)))[k])]
+                ('m*=m', '{ auto m = A; m *= B; stm(o+%d, m); }', lambda A, B, s, k: flat(mmul(unflat(A, C, R), unflat(B, C, R)))[k]),
+                ('m*=self', '{ auto m = A; auto const& r = m; m *= r; stm(o+%d, m); }', lambda A, B, s, k: flat(mmul(unflat(A, C, R), unflat(A, C, R)))[k])]        # right-hand side aliases the object
     return ops
 
 def one(x): return z3.BitVecVal(1, x.size()) if z3.is_bv(x) else (z3.IntVal(1) if z3.is_int(x) else z3.RealVal(1))
